@@ -106,14 +106,20 @@ def check(chk):
     got = dict((k, (v[0], v[1])) for k, v in rows.items())
     chk.judge(got == want, 'C16.table', hd, 'decision table: retry rows count once and retry; RETHROW raises; IGNORE returns empty',
               'decision table is %s' % sorted((str(k), v) for k, v in got.items()))
-    if (True, None) in rows:
-        call = rows[(True, None)][2][0]
-        chk.judge(call.replace(' ', '') == 'self._retry(reuse,consistency,host)', 'C16.table', hd, '_retry(reuse, consistency, host)', 'retry invoked as %s' % call)
-    reuse = [st for st in body_walk(hd) if isinstance(st, ast.Assign) and src(st.targets[0]) == 'reuse']
-    chk.judge(len(reuse) == 1 and src(reuse[0].value) == 'retry_type == RetryPolicy.RETRY', 'C16.table', hd, 'reuse = (retry_type == RETRY)', 'reuse computed as %s' % [src(r.value) for r in reuse])
+    # the retry call: (same host? = the decision is RETRY, the level the policy returned, the host of the response) - temporaries resolved, names free
+    from ..sem import resolve as _res16
     unpack = [st for st in body_walk(hd) if isinstance(st, ast.Assign) and isinstance(st.targets[0], ast.Tuple) and src(st.value) == 'retry_decision']
-    chk.judge(len(unpack) == 1 and [src(e) for e in unpack[0].targets[0].elts] == ['retry_type', 'consistency'], 'C16.table', hd,
-              'decision unpacked as (retry_type, consistency)', 'decision tuple unpacked differently')
+    oku = len(unpack) == 1 and len(unpack[0].targets[0].elts) == 2 and all(isinstance(e_, ast.Name) for e_ in unpack[0].targets[0].elts)
+    chk.judge(oku, 'C16.table', hd, 'decision unpacked as (retry_type, consistency)', 'decision tuple unpacked differently')
+    if oku:
+        tname_, cname_ = [e_.id for e_ in unpack[0].targets[0].elts]
+        rcalls = [c_ for c_ in body_walk(hd) if isinstance(c_, ast.Call) and src(c_.func) == 'self._retry']
+        okr = len(rcalls) == 1 and len(rcalls[0].args) == 3 and not rcalls[0].keywords
+        if okr:
+            a0 = src(_res16(hd, rcalls[0].args[0], keep=(tname_, cname_)))
+            okr = a0 in ('%s == RetryPolicy.RETRY' % tname_, 'RetryPolicy.RETRY == %s' % tname_, '%s is RetryPolicy.RETRY' % tname_) and \
+                src(_res16(hd, rcalls[0].args[1], keep=(tname_, cname_))) == cname_ and src(rcalls[0].args[2]) == 'host'
+        chk.judge(okr, 'C16.table', hd, '_retry(decision is RETRY, consistency, host)', 'retry invoked as %s' % ([src(c_) for c_ in rcalls]))
     if (False, False) in rows:
         chk.judge(rows[(False, False)][2][0] == 'self._set_final_result(None)', 'C16.table', hd, 'IGNORE -> _set_final_result(None)', 'IGNORE returns %s' % rows[(False, False)][2][0])
 
